@@ -65,7 +65,8 @@ def run(chk):
     scope = c04.scope_family()
     fs = c01.dispatch_formulas() + [f for f in c02.family() if not (S.labels(f)[0] | S.labels(f)[1]) & {'empty', 'full'}] + [f for f in scope if S.quant_depth(f) <= 2]
     tasks = []
-    for f in fs[::1 if thorough else 2]:
+    for fi, f in enumerate(fs):
+        if not thorough and fi % 2 and f not in scope: continue       # quick: every second formula, but every member of the scope-stack family
         k = S.quant_depth(f)
         if (k <= 1 or f in scope) and (thorough or not c02.heavy(f) or f in scope): tasks.append({'n': 2, 'k': k, 'c': 1, 'entry': 'multi_ext_dirty', 'phis': [f], 'check_unit': True, 'timeout_ms': 600000 if thorough else 60000} if f not in scope else {'n': 2, 'k': k, 'c': 0, 'entry': 'multi_ext_dirty', 'phis': [f], 'check_unit': True, 'timeout_ms': 600000 if thorough else 60000})
     ET.run_tasks(chk, 'C03', tasks, signature='outside-unit')
